@@ -203,3 +203,24 @@ PROPS["C17"] = dict(
     engines=[pbt("c17_schema", libs=["rapidcheck", "snappy", "lz4"], quick=dict(cases=1200, size=60, enum=1, procs=4), thorough=dict(cases=8000, size=100, enum=2, procs=16, timeout=7200))],
     min_evaluations=dict(quick=5000, thorough=150000),
 )
+
+PROPS["C02"] = dict(
+    title="What a reader returns does not depend on how the caller consumes it",
+    level="exploration",
+    design_ref="DESIGN.md section 8, C02",
+    level_text=("Model-based testing over reference-written files (REQUIRED/OPTIONAL columns of all types, 1..6 pages per chunk, dictionary and plain pages, "
+                "all codecs, 1..3 row groups): generated call histories of read_batch(k) with and without level buffers, skip(k), has_next, remaining and "
+                "re-creation of the column reader are checked step by step against a cursor over the stored content; every sequence of read/skip sizes "
+                "that consumes a chunk of up to 5 (thorough 6) rows in 1..3 pages is enumerated. The batch reader is run for generated batch sizes and "
+                "projections (by index and by name) and compared row by row with the same content, including equal row counts in all columns of a batch, "
+                "END_OF_DATA exactly at the end, and one fixed null-bitmap polarity across all columns, batches and I/O paths of the campaign. Exploration only."),
+    level_note="histories are plain generated command lists run against an explicit model (equivalent to state-machine testing here because every command is valid in every state); trusts ref/parquet_writer.hpp",
+    technique="model-based property testing (rapidcheck command sequences against a cursor model) + bounded-exhaustive small-scope histories + differential batch reader vs column content",
+    rule=("col_history case = (file, I/O mode, chunk, op list); non-trivial: a read that ends strictly inside a page of an OPTIONAL column with a null before the "
+          "cursor and is followed by another read, or a skip that crosses a page boundary. batches case = (file, mode, batch_size, projection); non-trivial: "
+          "more rows than batch_size and a page whose row count is not a multiple of batch_size."),
+    assumptions=["read_batch(k) may return fewer than k rows ('up to'); only content, order, totals, skip = min(n, remaining) and remaining() are asserted",
+                 "level buffers are omitted only for REQUIRED columns", "the null bitmap polarity is not imposed, only required to be the same everywhere"],
+    engines=[pbt("c02_histories", libs=["rapidcheck", "snappy", "lz4"], quick=dict(cases=1200, size=60, enum=1, procs=6), thorough=dict(cases=12000, size=100, enum=2, procs=16))],
+    min_evaluations=dict(quick=6000, thorough=150000),
+)
